@@ -171,7 +171,8 @@ func (j *JA4Fingerprint) unmarshalFirstALPN(chs *utls.ClientHelloSpec) {
 		return
 	}
 	// https://github.com/FoxIO-LLC/ja4/blob/e7226cb51729f70fce740e615f8b2168ad68f67c/python/ja4.py#L241-L245
-	if len(alpn) > 2 {
+	if len(alpn) > 2 || len(alpn) == 1 {
+		// first and last character; a one-character value yields it twice
 		alpn = string(alpn[0]) + string(alpn[len(alpn)-1])
 	}
 	if alpn[0] > 127 {
